@@ -15,7 +15,7 @@ Case kinds (JSON):
   xerr    {"k","src","ns","exc":...}                 valid cache whose execution raises
   hist    {"k","ns","dwb","again","mtime","pad","steps":[...]}   ONE child interpreter runs a whole
           history over one namespace file: ["import"] | ["reload", "importlib"|"ns"|"require"] |
-          ["invalidate"] | ["edit", version, mtime, pad] | ["touch", {pert}]; after every import /
+          ["invalidate"] | ["setdwb", bool] | ["edit", version, mtime, pad] | ["touch", {pert}]; after every import /
           reload the child reports which version's definitions are visible, whether the cache
           was used, and what cache file is left behind
   shape   {"k"}                                      static: who stats the source (tr_importer)
@@ -376,6 +376,8 @@ def child_hist(a, rep, imp):
                 load(lambda: importlib.reload(mod))
         elif op == "invalidate":
             importlib.invalidate_caches()
+        elif op == "setdwb":
+            sys.dont_write_bytecode = bool(st[1])
         elif op == "edit":
             _write_src(srcdir, nsname, hist_src(nsname, st[1], st[3]), st[2])
         elif op == "touch":
